@@ -703,20 +703,27 @@ where
 }
 
 pub fn c15_graph(out: &mut Out, ag: &AG, rng: &mut Rng) {
-    if ag.n == 0 || ag.edges.len() > 13 {
+    if ag.n == 0 || (ag.edges.len() > 13 && (ag.n > 16 || ag.edges.len() > 40)) {
         return;
     }
+    // more than 13 edges: the oracle cannot enumerate all matchings; the maximum is certified instead by a
+    // Tutte-Berge set U computed here by brute force and VERIFIED by the oracle (any U gives an upper bound)
+    let cert = ag.edges.len() > 13;
+    let tb = if cert { Some(tutte_berge_witness(ag)) } else { None };
     each_enc!(out, "C15", ag, rng, [graph, stable], |g, fwd, inv| {
         let mut f = Fields::new();
         c15_match(&g, &fwd, &inv, &mut f);
-        c15_match_filtered(&g, &fwd, &inv, &mut f);
+        if !cert { c15_match_filtered(&g, &fwd, &inv, &mut f); }
+        if let Some(u) = &tb { f.insert("tb_u".into(), json!(u)); }
         f
     });
     each_enc!(out, "C15", ag, rng, [matrixd, matrixu, map, csr, list], |g, fwd, inv| {
         let mut f = Fields::new();
         c15_match(&g, &fwd, &inv, &mut f);
+        if let Some(u) = &tb { f.insert("tb_u".into(), json!(u)); }
         f
     });
+    if cert { return; }
     if ag.directed {
         // capacities: |w|
         let cap = AG { n: ag.n, directed: true, edges: ag.edges.iter().map(|&(s, t, w)| (s, t, w.abs())).collect() };
@@ -1273,6 +1280,12 @@ pub fn sweep(prop: &str, seed: u64, exhaustive_n: usize, random: usize, nmax: us
             for _ in 0..(if directed { random } else { 5 * random }) {
                 let ag = if directed { layered_flow_ag(&mut rng) } else { blossom_ag(&mut rng) };
                 f(out, &ag, &mut rng);
+            }
+            if !directed {
+                for _ in 0..2 * random {
+                    let ag = blossom_big_ag(&mut rng);
+                    f(out, &ag, &mut rng);
+                }
             }
         }
         if prop == "C12" && !directed {
